@@ -43,18 +43,20 @@ func (cache *HevcCache) CachePack(pack Pack) bool {
 	cache.l.Lock()
 	defer cache.l.Unlock()
 
+	// 聚合包可能同时携带 VPS、SPS、PPS 甚至关键帧，各自都要记录
 	if vps { // 视频参数
 		cache.vps = rtppack
-		return false
 	}
 
 	if sps { // 序列头参数
 		cache.sps = rtppack
-		return false
 	}
 
 	if pps { // 图像参数
 		cache.pps = rtppack
+	}
+
+	if (vps || sps || pps) && !islice { // 仅含参数集的包
 		return false
 	}
 
@@ -86,25 +88,33 @@ func (cache *HevcCache) PushTo(q *queue.SyncQueue) int {
 	cache.l.RLock()
 	defer cache.l.RUnlock()
 
-	// 写参数包
-	if cache.vps != nil {
+	var packs []interface{}
+	var keyPack interface{} // GOP 的首包（可能同时携带参数集）
+	if cache.cacheGop {
+		packs = cache.gop.Elems()
+		if len(packs) > 0 {
+			keyPack = packs[0]
+		}
+	}
+
+	// 写参数包；同一个包只写一次，若参数集就在 GOP 首包中则随 GOP 一起写
+	if cache.vps != nil && interface{}(cache.vps) != keyPack {
 		q.Queue().Push(cache.vps)
 		bytes += cache.vps.Size()
 	}
 
-	if cache.sps != nil {
+	if cache.sps != nil && cache.sps != cache.vps && interface{}(cache.sps) != keyPack {
 		q.Queue().Push(cache.sps)
 		bytes += cache.sps.Size()
 	}
 
-	if cache.pps != nil {
+	if cache.pps != nil && cache.pps != cache.vps && cache.pps != cache.sps && interface{}(cache.pps) != keyPack {
 		q.Queue().Push(cache.pps)
 		bytes += cache.pps.Size()
 	}
 
 	// 如果必要，写 GopCache
 	if cache.cacheGop {
-		packs := cache.gop.Elems()
 		q.Queue().PushN(packs) // 启动阶段调用，无需加锁
 		for _, p := range packs {
 			bytes += p.(Pack).Size()
